@@ -3,21 +3,23 @@ From PFL Require Import Base.Loop Base.ListSet Base.Closure Spec.Enfa Model.Enfa
   Proofs.EnfaAccepts Proofs.EnfaSets Oracle.EnfaEquiv.
 Import ListNotations.
 
-Lemma labels_In A q a r : In (q, Some a, r) (e_delta A) -> In a (labels A).
+Lemma labels_In {Q} (A : enfa Q) q a r : In (q, Some a, r) (e_delta A) -> In a (labels A).
 Proof. intros H. unfold labels. apply in_flat_map. exists (q, Some a, r). split; [exact H|cbn; auto]. Qed.
 
-Lemma dstep_nolabel A S a : ~ In a (labels A) -> isempty (dstep A S a).
+Lemma dstep_nolabel {Q} `{EqDec Q} (A : enfa Q) S a : ~ In a (labels A) -> isempty (dstep A S a).
 Proof.
   intros Hn. unfold dstep. apply eclose_empty. intros x Hx. apply step_set_In in Hx.
   destruct Hx as [q [_ Hd]]. apply Hn. eapply labels_In; eauto.
 Qed.
 
 Section Sound.
-  Variables A B : enfa.
+  Context {Q1 Q2 : Type} `{EqDec Q1} `{EqDec Q2} `{Canon Q1} `{Canon Q2}.
+  Variable A : enfa Q1.
+  Variable B : enfa Q2.
   Variable n : nat.
   Hypothesis Heq : enfa_equiv A B n = Some true.
 
-  Definition P (ps : list pairT) (SA SB : list N) : Prop :=
+  Definition P (ps : list (list Q1 * list Q2)) (SA : list Q1) (SB : list Q2) : Prop :=
     (exists p, In p ps /\ seteq (fst p) SA /\ seteq (snd p) SB) \/ (isempty SA /\ isempty SB).
 
   Lemma equiv_fold : exists ps,
@@ -32,18 +34,18 @@ Section Sound.
     { induction w as [|a w IH]; intros SA SB HP; cbn [fold_left]; [exact HP|]. apply IH.
       destruct HP as [[p [Hp [E1 E2]]]|[E1 E2]].
       - destruct (mem a (sigma A B)) eqn:M.
-        + left. exists (canon (dstep A (fst p) a), canon (dstep B (snd p) a)). cbn [fst snd]. split; [|split].
+        + left. exists (norm (dstep A (fst p) a), norm (dstep B (snd p) a)). cbn [fst snd]. split; [|split].
           * apply R. apply reach_step with p; [now apply R|]. unfold psucc. apply in_map_iff.
             exists a. split; [reflexivity|now apply mem_In].
-          * eapply seteq_trans; [apply canon_seteq|now apply dstep_seteq].
-          * eapply seteq_trans; [apply canon_seteq|now apply dstep_seteq].
+          * eapply seteq_trans; [apply norm_seteq|now apply dstep_seteq].
+          * eapply seteq_trans; [apply norm_seteq|now apply dstep_seteq].
         + right. apply mem_nIn in M. unfold sigma in M. rewrite dedup_In, in_app_iff in M.
           split; apply dstep_nolabel; tauto.
       - right. split; now apply dstep_empty. }
     intros w. apply G. left. exists (pstart A B). split; [|split].
     - apply R. apply reach_init. now left.
-    - apply canon_seteq.
-    - apply canon_seteq.
+    - apply norm_seteq.
+    - apply norm_seteq.
   Qed.
 
   Theorem enfa_equiv_sound : lang_eq A B.
